@@ -40,6 +40,7 @@ def verify(src, sid, prop):
         m = re.findall(r"go test[^\n`]*-run[^\n`]*", readme)
         cmd = m[0].strip() if m else "go test -vet=off -count=1 ."
         cmd = cmd.replace("&lt;", "<").replace("&gt;", ">").split(";")[0].split("&&")[0].strip()
+        cmd = re.split(r"\s{2,}|->", cmd)[0].strip()
         if "-vet=off" not in cmd:
             cmd = cmd.replace("go test", "go test -vet=off")
         pk = re.findall(r"(\./internal/[a-z]+/?|\./inputrc/?)", cmd)
